@@ -30,6 +30,9 @@ type Case struct {
 	SelfAutobind bool `json:"self_autobind,omitempty"`
 	// ExecNamed: schema types named like an exported identifier of the generated exec file
 	ExecNamed []string `json:"exec_named,omitempty"`
+	// MoreRuns: generate this many more times on a clean tree (schemas with object-literal
+	// defaults: small Go maps iterate as a rotation, so a missing sort shows only in some processes)
+	MoreRuns int `json:"more_runs,omitempty"`
 }
 
 const staleExecKey = "idempotence.followschema-stale-exec-files-autobound"
@@ -142,7 +145,11 @@ func check(c Case) *vfrun.Failure {
 	tool := filepath.Join(work, "gqlgen-gen")
 	var first map[string]string
 	var firstContent map[string][]byte
-	for i, r := range runs {
+	allRuns := runs
+	for k := 0; k < c.MoreRuns; k++ {
+		allRuns = append(append([]run{}, allRuns...), run{fmt.Sprintf("clean tree, GOMAXPROCS=%d, project root (extra run %d)", 1+k%4, k), true, 1 + k%4, false})
+	}
+	for i, r := range allRuns {
 		if r.wipe {
 			wipe(dir)
 		}
@@ -344,6 +351,10 @@ func gen(t *rapid.T) Case {
 	}
 	if s.Features["colliding-type-names"] {
 		vfrun.Label("schema:colliding-type-names")
+	}
+	if s.Features["object-default"] && c.Config.Federation == nil {
+		c.MoreRuns = 6
+		vfrun.Label("schema:object-literal-default(+6 runs)")
 	}
 	vfrun.SampleCat(c.Config.ExecLayout+"/"+c.Config.ResolverLayout, map[string]any{"gqlgen_yml": c.Config.YAML(), "files": len(s.Files), "runs": len(runs)})
 	return c
